@@ -234,6 +234,10 @@ pub fn lendist() -> LenDist {
 struct Huff {
     count: [u16; 16],
     symbol: Vec<u16>,
+    /// for an incomplete code: (value, length) of the canonically last code; a bit pattern that
+    /// is not a prefix of any code is reported as undefined as soon as it is read, without
+    /// waiting for further input
+    last_code: Option<(u32, u32)>,
 }
 
 enum HuffBuild {
@@ -277,7 +281,19 @@ fn build(lens: &[u8]) -> HuffBuild {
             offs[l as usize] += 1;
         }
     }
-    let h = Huff { count, symbol };
+    let mut h = Huff { count, symbol, last_code: None };
+    if left > 0 && max_len > 0 {
+        // canonical value of the last code of maximum length
+        let mut code = 0u32;
+        let mut last = 0u32;
+        for len in 1..=max_len as usize {
+            code = (code + h.count[len - 1] as u32 * (len > 1) as u32) << 1;
+            if h.count[len] > 0 {
+                last = code + h.count[len] as u32 - 1;
+            }
+        }
+        h.last_code = Some((last, max_len as u32));
+    }
     if left > 0 {
         HuffBuild::Incomplete(h, max_len, n_codes)
     } else {
@@ -305,6 +321,12 @@ fn decode(h: &Huff, br: &mut BitReader) -> Dec {
         let count = h.count[len] as i32;
         if code - count < first {
             return Dec::Sym(h.symbol[(index + (code - first)) as usize]);
+        }
+        if let Some((last, maxlen)) = h.last_code {
+            // dead prefix: larger than the corresponding prefix of the last code, or no longer codes
+            if len as u32 >= maxlen || (code as u32) > (last >> (maxlen - len as u32)) {
+                return Dec::Undefined;
+            }
         }
         index += count;
         first += count;
